@@ -22,7 +22,7 @@ type deepNode struct {
 // nested too deep has to be refused by Encode already.
 func TestDeepNestingRoundTrip(t *testing.T) {
 	const check = "deep_nesting_roundtrip"
-	stats.Rule(check, "rapid draws a nesting depth from {1..40, 480..520, 980..1020, 1990..2010, 3000} and how the levels are linked (optional pointer, one-element slice, alternating), validation on/off; the value is built iteratively. Oracle: Encode refuses the value, or Decode of its output succeeds, consumes everything and yields a list of the same depth and values; JSONEncode likewise against JSONDecode. Distinct by (depth, linking, validation); non-trivial = depth >= 480")
+	stats.Rule(check, "rapid draws a nesting depth from {1..40, 480..520, 980..1020, 1990..2010, 3000} and how the levels are linked (optional pointer, one-element slice, alternating), validation on/off, and whether Decode gets an allocated destination or a nil pointer it has to allocate; the value is built iteratively. Oracle: Encode refuses the value, or Decode of its output succeeds, consumes everything and yields a list of the same depth and values; JSONEncode likewise against JSONDecode. Distinct by (depth, linking, validation); non-trivial = depth >= 480")
 	api := serix.NewAPI()
 	ctx := context.Background()
 	rapid.Check(t, func(rt *rapid.T) {
@@ -33,7 +33,8 @@ func TestDeepNestingRoundTrip(t *testing.T) {
 		if validate {
 			opts = append(opts, serix.WithValidation())
 		}
-		desc := fmt.Sprintf("depth=%d link=%s validation=%v", depth, link, validate)
+		nilDestination := rapid.Bool().Draw(rt, "nilDestination")
+		desc := fmt.Sprintf("depth=%d link=%s validation=%v nilDestination=%v", depth, link, validate, nilDestination)
 		fail := func(format string, a ...any) {
 			msg := fmt.Sprintf(format, a...)
 			stats.Violation(check, map[string]any{"config": desc, "problem": msg})
@@ -78,10 +79,20 @@ func TestDeepNestingRoundTrip(t *testing.T) {
 		if b, err := api.Encode(ctx, in, opts...); err != nil {
 			labels = append(labels, "encode_refused")
 		} else {
+			// the destination is an allocated value, or a nil pointer that Decode has to allocate (one more level)
 			out := &deepNode{}
-			n, err := api.Decode(ctx, b, out, opts...)
+			var n int
+			if nilDestination {
+				var p *deepNode
+				n, err = api.Decode(ctx, b, &p, opts...)
+				if err == nil {
+					out = p
+				}
+			} else {
+				n, err = api.Decode(ctx, b, out, opts...)
+			}
 			if err != nil {
-				fail("Encode produced %d bytes that Decode refuses: %v", len(b), err)
+				fail("Encode produced %d bytes that Decode refuses (destination is a nil pointer: %v): %v", len(b), nilDestination, err)
 			}
 			if n != len(b) {
 				fail("Decode consumed %d of %d bytes", n, len(b))
